@@ -4,7 +4,8 @@ Case input (tree): [classes, rels, ops]
   classes : list of parent class index (-1 = base class; >= 0 = joined-table subclass of that class)
   rels    : [0, a, b, flags]  class a holds a foreign key to class b; flags bit0 many-to-one attribute on a,
                               bit1 one-to-many collection on b, bit2 post_update, bit3 NOT NULL,
-                              bit4 cascade="all" on the collection, bit5 passive_deletes=True on the collection
+                              bit4 cascade="all" on the collection, bit5 passive_deletes=True on the collection,
+                              bit6 cascade="all, delete-orphan" on the collection, bit7 cascade="all" on the many-to-one
             [1, a, b, flags]  many-to-many through a secondary table; bit0 attribute on a, bit1 attribute on b
   ops     : [0, cls] new object (explicit primary key) added to the session
             [1, rel, holder, target|-1]  holder.<m2o> = target   (collection append/remove when no m2o attribute)
@@ -64,6 +65,8 @@ ANCHORS = [
     ("lib/sqlalchemy/orm/unitofwork.py", "UOWTransaction.execute"),
     ("lib/sqlalchemy/orm/unitofwork.py", "UOWTransaction._per_mapper_flush_actions"),
     ("lib/sqlalchemy/orm/unitofwork.py", "UOWTransaction.states_for_mapper_hierarchy"),
+    ("lib/sqlalchemy/orm/unitofwork.py", "_Preprocess"),
+    ("lib/sqlalchemy/orm/dependency.py", "_DependencyProcessor.prop_has_changes"),
     ("lib/sqlalchemy/orm/unitofwork.py", "_PostSortRec"),
     ("lib/sqlalchemy/orm/unitofwork.py", "_ProcessAll"),
     ("lib/sqlalchemy/orm/unitofwork.py", "_PostUpdateAll"),
@@ -226,8 +229,8 @@ def runner_for_run(bdir):
 
 
 # ---------------------------------------------------------------- schema families
-def _fk(a, b, m2o=1, o2m=1, post=0, nn=0, casc=0, passive=0):
-    return [0, a, b, m2o | o2m << 1 | post << 2 | nn << 3 | casc << 4 | passive << 5]
+def _fk(a, b, m2o=1, o2m=1, post=0, nn=0, casc=0, passive=0, orphan=0, m2ocasc=0):
+    return [0, a, b, m2o | o2m << 1 | post << 2 | nn << 3 | casc << 4 | passive << 5 | orphan << 6 | m2ocasc << 7]
 
 
 def _mm(a, b, fwd=1, bwd=1):
@@ -264,6 +267,10 @@ FAMILIES = {
     # passive_deletes on a collection whose members are instances of a joined subclass
     "passive-sub": ([-1, -1, 1], [_fk(1, 0, m2o=0, passive=1)]),
     "passive": ([-1, -1], [_fk(1, 0, passive=1)]),
+    # two relationships on one mapper: a many-to-one with delete cascade declared first, a delete-orphan
+    # collection declared second; states reach the flush in a LATER presort round (orphans, cascades)
+    "orphan-tree+m2o": ([-1, -1], [_fk(0, 1, o2m=0, m2ocasc=1), _fk(0, 0, m2o=0, orphan=1)]),
+    "orphan-o2m+m2o": ([-1, -1, -1], [_fk(1, 2, o2m=0, m2ocasc=1), _fk(1, 0, orphan=1)]),
 }
 # families all of whose cases are expected to satisfy the hypotheses of the guarded theorem
 IN_GUARD = {"o2m", "chain3", "tree", "tree-cascade", "m2m", "m2m-self", "m2m+tree", "mutual-backref", "parent-of-tree", "child-of-tree"}
@@ -381,6 +388,18 @@ EXTRA = {
     "passive": [
         [[0, 0], [0, 1], [0, 1], [2, 0, 0, 1], [2, 0, 0, 2], [8], [9], [6, 0], [6, 1], [6, 2]],
     ],
+    # root(0) with storage s1(2), child c2(1) with storage s2(3); everything expired; the child is removed from
+    # the collection: it is an orphan, deleted in a later presort round together with its storage
+    "orphan-tree+m2o": [
+        [[0, 0], [0, 0], [0, 1], [0, 1], [1, 0, 0, 2], [1, 0, 1, 3], [2, 1, 0, 1], [8], [9], [3, 1, 0, 1]],
+        [[0, 0], [0, 0], [0, 1], [0, 1], [1, 0, 0, 2], [1, 0, 1, 3], [2, 1, 0, 1], [8], [3, 1, 0, 1]],
+        [[0, 0], [0, 0], [0, 1], [0, 1], [1, 0, 0, 2], [1, 0, 1, 3], [2, 1, 0, 1], [8], [9], [6, 0]],
+        [[0, 0], [0, 0], [0, 0], [0, 1], [0, 1], [1, 0, 1, 3], [1, 0, 2, 4], [2, 1, 0, 1], [2, 1, 1, 2], [8], [9], [3, 1, 0, 1]],
+    ],
+    "orphan-o2m+m2o": [
+        [[0, 0], [0, 1], [0, 2], [1, 0, 1, 2], [2, 1, 0, 1], [8], [9], [3, 1, 0, 1]],
+        [[0, 0], [0, 1], [0, 2], [1, 0, 1, 2], [2, 1, 0, 1], [8], [9], [6, 0]],
+    ],
 }
 
 
@@ -433,7 +452,7 @@ def gen_cases(rng, tier):
         if tier not in ("search", "thorough") and len(dd) > 10:
             dd = rng.sample(dd, 10)
         for ops in extra:
-            cases.append({"in": [classes, rels, ops], "kind": "directed:" + name, "fam": name})
+            cases.append({"in": [classes, rels, ops], "kind": "directed:" + name, "fam": name, "claim": True})
         for ops in dd:
             cases.append({"in": [classes, rels, ops], "kind": "directed:" + name, "fam": name})
         for _ in range(6 if quick else 500):
@@ -504,12 +523,14 @@ def _build(classes, rels):
                 setattr(cl[a], "r%d" % i, relationship(
                     cl[b], foreign_keys=[tab(a).c["f%d" % i]], remote_side=[tab(b).c.id], post_update=post,
                     primaryjoin=tab(a).c["f%d" % i] == tab(b).c.id,
+                    cascade="all" if fl >> 7 & 1 else "save-update, merge",
                     back_populates=("c%d" % i) if fl & 2 else None))
             if fl & 2:
                 setattr(cl[b], "c%d" % i, relationship(
                     cl[a], foreign_keys=[tab(a).c["f%d" % i]], remote_side=[tab(a).c["f%d" % i]], post_update=post,
                     primaryjoin=tab(a).c["f%d" % i] == tab(b).c.id,
-                    cascade="all" if fl >> 4 & 1 else "save-update, merge", passive_deletes=bool(fl >> 5 & 1),
+                    cascade="all, delete-orphan" if fl >> 6 & 1 else "all" if fl >> 4 & 1 else "save-update, merge",
+                    passive_deletes=bool(fl >> 5 & 1),
                     back_populates=("r%d" % i) if fl & 1 else None))
         else:
             t = Table("s%d" % i, Base.metadata,
@@ -669,6 +690,19 @@ def impl(c):
         _last["skip"] = True
         return [9, type(e).__name__[:40]]
 
+    def par_of(o, i):
+        """o.r<i> WITHOUT loading an unloaded many-to-one (the flush must see it unloaded): the object whose
+        key is in the foreign key column"""
+        if ("r%d" % i) in inspect(o).dict:
+            return getattr(o, "r%d" % i)
+        v = getattr(o, "f%d" % i)
+        if v is None:
+            return None
+        for x in objs:
+            if isinstance(x, cl[rels[i][2]]) and inspect(x).identity is not None and x.id == v:
+                return x
+        return None
+
     def coll_of(par, i):
         """members of par.c<i> WITHOUT loading an unloaded collection (the flush must see it unloaded)"""
         if ("c%d" % i) in inspect(par).dict:
@@ -688,7 +722,7 @@ def impl(c):
                 # rows to delete: a reference cycle among them cannot be deleted without post_update either
                 for i, (kind, a, b, fl) in enumerate(rels):
                     if kind == 0 and isinstance(o, cl[a]) and fl & 1 and not (fl >> 2 & 1):
-                        t = getattr(o, "r%d" % i)
+                        t = par_of(o, i)
                         if t is not None:
                             tgt.setdefault(id(o), set()).add(id(t))
                 continue
@@ -696,7 +730,7 @@ def impl(c):
                 if kind == 0 and isinstance(o, cl[a]):
                     t = None
                     if fl & 1:
-                        t = getattr(o, "r%d" % i)
+                        t = par_of(o, i)
                     else:
                         ps = [p for p in insess if isinstance(p, cl[b]) and o in coll_of(p, i)]
                         if fl >> 5 & 1 and any(("c%d" % i) not in inspect(p).dict for p in ps):
@@ -734,7 +768,7 @@ def impl(c):
                 if kind != 0 or fl >> 2 & 1:
                     continue
                 if fl & 1 and isinstance(o, cl[a]):
-                    t = getattr(o, "r%d" % i)
+                    t = par_of(o, i)
                     if t is not None:
                         memlinks.setdefault(id(o), set()).add(id(t))
                 if fl & 2 and isinstance(o, cl[b]):
@@ -1006,6 +1040,10 @@ def impl(c):
             stale_cycle = any(dfs2(n) for n in list(both) if n not in seen2)
     except Exception as e:
         _last["stale_err"] = repr(e)
+    if any(r[0] == 0 and (r[3] >> 6 & 1 or r[3] >> 7 & 1) for r in rels) and not c.get("claim"):
+        # delete-orphan / delete cascades decide DURING the flush which rows go away; the harness does not
+        # predict that, so the "final state is consistent" claim is made only for the scripted scenarios
+        consistent = False
     _last.update(err=err, consistent=consistent, rowcycle=rowcycle, unsupported=unsupported, trace=trace,
                  stale_cycle=stale_cycle, items=items, ref0=ref0, snap=snap, rels=rels, classes=classes,
                  objcls=[cl.index(type(o)) for o in objs])
